@@ -154,6 +154,9 @@ func genWorld(r *rand.Rand, now int, o genOpts, class *string) *AWorld {
 	claimNb := [][2]int{}
 	if o.caveats {
 		claimNb = b.randNb(2)
+		if r.Intn(8) == 0 { // a map-valued caveat: {a:1, b:2}; delegations may write {a:1}, {a:1,b:2} or {b:2}
+			claimNb = append(claimNb, [2]int{4, specialBase + 5})
+		}
 	}
 	*class = fmt.Sprintf("depth%d", depth)
 
@@ -214,6 +217,9 @@ func genWorld(r *rand.Rand, now int, o genOpts, class *string) *AWorld {
 					}
 					if r.Intn(12) == 0 {
 						v = specialBase + r.Intn(4) // written as an empty list / map / string or false
+					}
+					if kv[1] >= specialBase+4 && r.Intn(2) == 0 {
+						v = specialBase + 4 + r.Intn(3) // another map value: a part of the claimed one, or all of it
 					}
 					nb = append(nb, [2]int{kv[0], v})
 				}
@@ -353,7 +359,7 @@ func (b *wb) attestations(id int, holder int, force int) []int {
 
 // ---- defects and decorations ------------------------------------------------------------------
 
-const specialBase = 1000 // caveat values 1000.. are written as empty list, empty map, empty string, false
+const specialBase = 1000 // caveat values 1000.. are written as empty list, empty map, empty string, false, {a:1}, {a:1,b:2}, {b:2}
 
 var defectKinds = []string{"nearmiss", "twincap", "none", "wrongkey", "tamper", "aud", "resource", "ability", "nonowner", "expired", "tooearly", "algcode", "revoke", "missing", "policy", "decoys", "permute", "nbf-ok", "dup", "parsefail", "deadend"}
 
@@ -419,6 +425,9 @@ func applyDefect(r *rand.Rand, w *AWorld, kind string) {
 		}
 	case "expired":
 		e := w.Now - farFuture
+		if r.Intn(4) == 0 {
+			e = 0 // the epoch itself
+		}
 		t.Exp = &e
 	case "tooearly":
 		t.Nbf = w.Now + farFuture
